@@ -23,6 +23,13 @@ T = {
  'C19': dict(design='4/C19', technique='fault injection: complete enumeration of fault class x API x base size x position, each with accepted twins, plus random negative values',
              text='Every fault class of the statement is injected at every position of valid bases of size 1-4 through every construction/loading API and must raise; the un-faulted twin and the 0/-0.0 boundary twins must be accepted and stored unaltered; unknown ids are queried against all six solution kinds. The enumeration over (class x API x position) is complete for these bases; values are fixed pools plus Hypothesis-generated negatives.',
              note='Contract is "raises" (any exception type). Dangling ground nodes and unknown waveforms must be rejected at the latest by the first analysis. Base descriptions are fixed templates.'),
+
+ 'C07': dict(design='4/C07', technique='property-based differential testing of circuit->network translation against an independent component table + exhaustive kind x position table',
+             text='Generated component lists over all 18 constructors (edge values included) x analysis frequency x resolution; each resulting branch (id, terminal order, immittance, source value, reference node) is compared with an independent table written from the statement, periodic sources with the true Fourier coefficients. Lists of length <= 3 over all kinds are enumerated completely (thorough).',
+             note='Trusts my component table (vlib/circuits.py) and the closed-form Fourier coefficients validated by C08; frequencies within 1e-6 of an activation boundary are skipped.'),
+ 'C02': dict(design='4/C02', technique='property-based differential testing of the phasor/DC analysis against an exact rational tableau solution of the independently translated network',
+             text='Generated RLC(+G/Z/Y/lamp/load) circuits with DC/AC sources x frequency (0, source frequencies, just inside/outside the resolution, random) x peak/RMS; potentials, voltages and currents of ComplexSolution and DCSolution are compared with the exact solution of the phasor network. Exploration over generated inputs.',
+             note='Trusts vlib/circuits.py + vlib/refsolve.py; inactive lossy sources, ill-posed and ill-conditioned (>1e8) cases are not judged.'),
 }
 
 DEFAULT_LEVEL = 'exploration'
